@@ -294,6 +294,11 @@ def getitem(eng, st, base, sl):
             if kind[0] == 'int':
                 bounds(eng, st, kind[1], m.shape[0], 'readrow:%s' % ast.unparse(sl)[:24])
                 return Row(m.shape[1], lambda y, m=m, x=kind[1]: m.fn(x, y), m.esort)
+            if kind[0] == 'mask2':
+                # M[boolean matrix]: the selected entries as a 1-D array; only their SUM is modelled (np.sum of the selection)
+                out = Row(fresh('nsel', INT), lambda q: (_ for _ in ()).throw(OutOfSubset('elementwise use of a 2-D mask selection')), m.esort)
+                out.masksum = (m, kind[1])
+                return out
             if kind[0] == 'fancy':
                 f = kind[1]
                 return Mat((f.n, m.shape[1]), lambda x, y, m=m, f=f: m.fn(f.fn(x), y), m.esort)
@@ -906,6 +911,12 @@ def np_sum(eng, st, args, kw, node):
     if isinstance(v, Mat) and getattr(v, 'aggmeta', None) is not None and axis is None:
         W, c, la, lb, n = v.aggmeta
         return core.agg(W, c, la - 1, lb - 1, to_z3(n, INT))
+    if isinstance(v, Row) and getattr(v, 'masksum', None) is not None and axis is None:
+        m_, mk = v.masksum
+        sel = materialise(eng, st, Mat(m_.shape, lambda x, y, m_=m_, mk=mk: z3.If(truth(mk.fn(x, y)), to_z3(m_.fn(x, y), REAL), z3.RealVal(0)), REAL))
+        if not z3.simplify(to_z3(m_.shape[0], INT) - to_z3(m_.shape[1], INT)).eq(z3.IntVal(0)):
+            raise OutOfSubset('mask selection of a non-square matrix')
+        return core.tsum(eng.pure(st.heap[sel.oid].term), to_z3(m_.shape[0], INT))
     if isinstance(v, Mat) and getattr(v, 'selmeta', None) is not None:
         kind, W, c, lab, n = v.selmeta
         nn = to_z3(n, INT)
@@ -984,6 +995,24 @@ def np_min(eng, st, args, kw, node):
             a, b = num2(e, t)
             e = z3.If(a <= b, a, b)
         return e
+    if ndim_of(eng, st, v) == 2 and not kw and len(args) == 1:
+        m = as_mat(eng, st, v)
+        mn = fresh('min', m.esort if m.esort != BOOL else INT)
+        x, y = z3.Ints('x!mn y!mn')
+        n0, n1 = to_z3(m.shape[0], INT), to_z3(m.shape[1], INT)
+        wx, wy = fresh('argmin_r', INT), fresh('argmin_c', INT)
+        st.pc.append(z3.ForAll([x, y], z3.Implies(z3.And(x >= 0, x < n0, y >= 0, y < n1), to_z3(m.fn(x, y)) >= mn)))
+        st.pc.append(z3.Implies(z3.And(n0 > 0, n1 > 0), z3.And(wx >= 0, wx < n0, wy >= 0, wy < n1, to_z3(m.fn(wx, wy)) == mn)))
+        return mn
+    if ndim_of(eng, st, v) == 1 and not kw and len(args) == 1:
+        r = as_row(eng, st, v)
+        mn = fresh('min', r.esort if r.esort != BOOL else INT)
+        q = z3.Int('q!mn')
+        n = to_z3(r.n, INT)
+        w = fresh('argmin', INT)
+        st.pc.append(z3.ForAll([q], z3.Implies(z3.And(q >= 0, q < n), to_z3(r.fn(q)) >= mn)))
+        st.pc.append(z3.Implies(n > 0, z3.And(w >= 0, w < n, to_z3(r.fn(w)) == mn)))
+        return mn
     raise OutOfSubset('np.min of array')
 
 
